@@ -262,7 +262,7 @@ Section IntactCmd.
                 HCHUNK HTAG HCB HB HB32 HHlen Horder wdec_wenc Hpubk Hwenc Hwtag cfg ct cm files sf rs privs s Hm) as (a & Hw & Hh & _).
     exists a. split; [exact Hw|].
     destruct Hm as [Hrun Hok Hutf H64 H32 _ Henc _ _ _].
-    destruct (Henc He) as (Hk & Hn & Htg & Hnf & Hdh & Hrec & Hin).
+    destruct (Henc He) as (Hk & Hn & Htg & (Hnf & _) & Hdh & Hrec & Hin).
     destruct (load_config_enc pubk dh kdf wenc wdec wtag wdec_wenc cfg privs s He Hk Hdh Hrec Hin) as [Hl|Ht]; [right | left; exact Ht].
     set (ks := ksf (wc_key cfg) (wc_nonce cfg)) in *. set (tagc := tagf (wc_key cfg) (wc_nonce cfg)) in *.
     assert (Hmid : mid_of BLOCK cfg (w_out sf) = w_out sf) by (unfold mid_of; rewrite Hc; reflexivity).
